@@ -657,6 +657,7 @@ func execC06x(p *drv.Plan, lg *c06Log) *Out {
 			}
 		}
 		fmt.Fprintf(os.Stderr, "adjacency: %v\n", out.States)
+		fmt.Fprintf(os.Stderr, "latest=%d floor=%d readersLeft=%d problem=%s\n", sh.load(&sh.latest), sh.load(&sh.floor), sh.readersLeft(), problem)
 	}
 	out.Trace = fmt.Sprintf("%016x", tr.Sum())
 	out.Probes["prune.pinned-request"] = int(sh.pinnedReq)
